@@ -66,9 +66,23 @@ Definition cmd_run12 (v : val) : val :=
       VL [VI 1; enc_state u; VL (snd res)]
   end.
 
+(** as [cmd_run12], on a graph assembled from the public building blocks (recipe of CmdC16.v) *)
+Definition cmd_run12_recipe (v : val) : val :=
+  let I := dec_instance (vnth v 0) in
+  let fs := asLof dec_fname (vnth v 1) in
+  match build_recipe I (asL (vnth v 2)) with
+  | None => VL [VI 0]
+  | Some g0 =>
+      let g := fold_left remove_if_present (asLof asN (vnth v 7)) g0 in
+      let u := rgu_fresh I (asLof dec_pre (vnth v 3)) (asB (vnth v 4)) (asB (vnth v 5)) g in
+      let res := fold_left (run_event17 I u) (asL (vnth v 6)) (rg_world fs (init_d I) u, []) in
+      VL [VI 1; enc_state u; VL (snd res)]
+  end.
+
 Definition run_c12 (c : Z) (v : val) : val :=
   match c with
   | 1 => cmd_fsession12 v
   | 2 => cmd_run12 v
+  | 3 => cmd_run12_recipe v
   | _ => VL []
   end.
